@@ -27,6 +27,8 @@ CONSTANTS
     CapN,         \* response-size cap expressed as "trips after CapN data batches" (0 = none)
     Cache,        \* call-state cache entries (0 = disabled)
     Compress,     \* response compression on/off (client asks for zstd)
+    ExtK,         \* external storage: 0 = off; 9 = on, no cap; K in {1,2} = on with
+                  \* max_externalized_response_bytes admitting exactly K uploads per HTTP turn
     CapProbe,     \* TRUE: also offer the unary / exchange response-cap probes
     Debug, HookMode
 
@@ -144,7 +146,8 @@ Resp(action, args, status, bs, token, hdr, journal, hooked, failed) ==
      exp |-> [status |-> status, kinds |-> Kinds(bs), vals |-> ValsOf(bs), metas |-> MetasOf_(bs), logs |-> LogsOf(bs),
               errs |-> ErrsOf(bs), token |-> token, hdr |-> hdr, journal |-> journal,
               hooks |-> IF hooked THEN HookEv(args.m, failed) ELSE <<>>,
-              tb |-> (Debug /\ ErrsOf(bs) # <<>>), leak |-> 0, complete |-> TRUE]]
+              tb |-> (Debug /\ ErrsOf(bs) # <<>>), leak |-> 0, complete |-> TRUE,
+              uploads |-> IF ExtK = 0 THEN 0 ELSE Len(ValsOf(bs))]]
 
 --------------------------------------------------------------------------
 (* Unary over HTTP (handleUnary).  Application failures answer 200 + X-VGI-RPC-Error.         *)
@@ -168,7 +171,11 @@ PerTurn == IF Limit = 0 THEN CapN ELSE IF CapN = 0 THEN Limit ELSE IF Limit < Ca
 RECURSIVE Loop(_, _, _)
 Loop(c, p, n) ==
     LET o == TurnOut(c, p + 1) IN
-    CASE o \in {"emit", "emitlogs", "emitmeta"} ->
+    CASE o \in {"emit", "emitlogs", "emitmeta"} /\ ExtK \in {1, 2} /\ n >= ExtK ->
+            \* checkExternalBudget: uploading this cycle would pass max_externalized_response_bytes;
+            \* the cap is hard for producers: the turn (and the stream) ends with the refusal
+            [bs |-> << Exc("RuntimeError", "") >>, p |-> p + 1, more |-> FALSE, calls |-> 1]
+      [] o \in {"emit", "emitlogs", "emitmeta"} ->
             LET b == (IF o = "emitlogs" THEN << Log("INFO", "turn") >> ELSE <<>>)
                      \o << IF o = "emitmeta" THEN DataM(p + 1) ELSE Data(p + 1) >> IN
             IF PerTurn > 0 /\ n + 1 >= PerTurn
@@ -191,7 +198,9 @@ MetaKeys(me) == CASE me = "user" -> <<"user.a", "user.b">>
                   [] me = "dup" -> <<"user.a">>
                   [] me = "collide" -> <<"vgi_rpc.stream_state", "user.a", "vgi_rpc.cancelled">>
                   [] OTHER -> <<>>
-PipeComparable(c, nsent) == IF IsProd(c.m) THEN (c.cancel = 0 \/ c.cancel > nsent) ELSE TRUE
+\* (a hard external cap is an HTTP-only refusal: no pipe reference then)
+PipeComparable(c, nsent) == IF ExtK \in {1, 2} THEN FALSE
+                           ELSE IF IsProd(c.m) THEN (c.cancel = 0 \/ c.cancel > nsent) ELSE TRUE
 
 (* POST /{m}/init (handleStreamInit).                                                           *)
 StreamInit(c, i) ==
@@ -272,19 +281,21 @@ Continue(i) ==
 (* C19, first sentence: with max_response_bytes set, a unary or exchange response whose body     *)
 (* would exceed the cap is replaced by an error.  The driver measures the uncapped response      *)
 (* and sets the cap relative to it: "over" = the body exceeds the cap, "fits" = it does not.      *)
-UnaryCap(rel, i) ==
+UnaryCap(rel, ch, i) ==
     /\ Budget /\ CapProbe /\ ph = "idle" /\ ncalls < MaxCalls
+    /\ (ch = "ext") => ExtK # 0
     /\ ncalls' = ncalls + 1
     /\ UNCHANGED <<ph, cur, pos, sent, view>>
-    /\ LET a == [m |-> "u_val", rel |-> rel, inst |-> i] IN
+    /\ LET a == [m |-> "u_val", rel |-> rel, chan |-> ch, inst |-> i] IN
        IF rel = "over"
        THEN RecordC(Resp("UnaryCap", a, 200, << Exc("RuntimeError", "") >>, FALSE, FALSE, <<"unary">>, TRUE, TRUE))
        ELSE RecordC(Resp("UnaryCap", a, 200, << Data("x") >>, FALSE, FALSE, <<"unary">>, TRUE, FALSE))
-ExchCap(rel, i) ==
+ExchCap(rel, ch, i) ==
     /\ Budget /\ CapProbe /\ ph = "idle" /\ ncalls < MaxCalls
+    /\ (ch = "ext") => ExtK # 0
     /\ ncalls' = ncalls + 1
     /\ UNCHANGED <<ph, cur, pos, sent, view>>
-    /\ LET a == [m |-> "exch", rel |-> rel, inst |-> i] IN
+    /\ LET a == [m |-> "exch", rel |-> rel, chan |-> ch, inst |-> i] IN
        IF rel = "over"
        THEN RecordC(Resp("ExchCap", a, 200, << Exc("RuntimeError", "") >>, FALSE, FALSE, <<"exchange">>, TRUE, TRUE))
        ELSE RecordC(Resp("ExchCap", a, 200, << Data(2) >>, TRUE, FALSE, <<"exchange">>, TRUE, FALSE))
@@ -293,14 +304,14 @@ ExchCap(rel, i) ==
 Init ==
     /\ ph = "idle" /\ cur = [k |-> "none"] /\ pos = 0 /\ sent = 0 /\ view = EmptyView /\ ncalls = 0
     /\ hist = << [a |-> "Setup",
-                  args |-> [limit |-> Limit, capn |-> CapN, cache |-> Cache, compress |-> Compress,
+                  args |-> [limit |-> Limit, capn |-> CapN, extk |-> ExtK, cache |-> Cache, compress |-> Compress,
                             debug |-> Debug, hook |-> HookMode, ninst |-> Cardinality(Inst)],
                   exp |-> [ok |-> TRUE]] >>
 
 Next ==
     \/ \E c \in Calls, i \in Inst : Unary(c, i) \/ StreamInit(c, i)
     \/ \E i \in Inst : Continue(i)
-    \/ \E rel \in {"over", "fits"}, i \in Inst : UnaryCap(rel, i) \/ ExchCap(rel, i)
+    \/ \E rel \in {"over", "fits"}, ch \in {"wire", "ext"}, i \in Inst : UnaryCap(rel, ch, i) \/ ExchCap(rel, ch, i)
 
 Spec == Init /\ [][Next]_vars
 
@@ -339,6 +350,10 @@ CapsHold ==
 HookBalanced ==
     [][ Stepped => LET h == E.hooks IN
           (Len(h) > 0 /\ h[1][1] = "start") => (Len(h) = 2 /\ h[2][1] = "end" /\ h[2][3] = (E.errs # <<>>)) ]_vars
+
+\* C19 (external channel, producer): a turn never uploads more than the cap admits
+ExtCapHolds ==
+    [][ (Stepped /\ Last.a \in {"Init", "Continue"} /\ ExtK \in {1, 2}) => E.uploads <= ExtK ]_vars
 
 \* C19 (unary / exchange): an over-cap body is replaced by an error and nothing else
 CapReplaces ==
